@@ -1,7 +1,149 @@
-/- Line-protocol engine for C11 — stub, to be filled in. -/
-import CV.Proto
+/- Line-protocol engine for C11 (event streaming). See go/overlay/internal/verifharness/c11. -/
+import CV.Stream
 namespace CV.Engine.C11
-open CV
-def step (_ : Unit) (_toks : List String) : Unit × String := ((), "bad-op")
-def engine : Engine := { State := Unit, init := (), step := step }
+open CV CV.Stream
+
+structure St where
+  sys  : Sys
+  vers : List (Nat × Cat)     -- catalog after each commit, for `restore <idx>`
+
+def kindStr : Kind → String
+  | .typical => "t"
+  | .native => "n"
+  | .proxy d => "p." ++ d
+
+def entryStr (p : Id × Val) : String :=
+  s!"{p.1.1}/{p.1.2}:{p.2.name}:{p.2.port}:{p.2.addr}:{kindStr p.2.kind}"
+
+/-- canonical rendering of a view: first match per id, sorted by `node/sid` -/
+def dedup : View → View
+  | [] => []
+  | p :: r => p :: (dedup r).filter (fun q => q.1 ≠ p.1)
+
+def viewStr (v : View) : String :=
+  let es := (dedup v).map fun p => (p.1.1 ++ "/" ++ p.1.2, entryStr p)
+  let sorted := es.mergeSort (fun a b => !(b.1 < a.1))
+  encList (sorted.map (·.2))
+
+def keyUniverse : List (String × Key) :=
+  [("h.web", hkey "web"), ("h.api", hkey "api"), ("h.db", hkey "db"),
+   ("c.web", ckey "web"), ("c.api", ckey "api"), ("c.db", ckey "db"),
+   ("g.web", ⟨.cfg, .named "web"⟩), ("g.api", ⟨.cfg, .named "api"⟩), ("g.*", ⟨.cfg, .wild⟩)]
+
+def dumpStr (c : Cat) : String :=
+  "|".intercalate (keyUniverse.map fun (n, k) => s!"{n}@{queryIdx k c}:{viewStr (query k c)}")
+
+def parseKey (t s : String) : Option Key := do
+  let topic ← (if t == "h" then some Topic.health else if t == "c" then some Topic.connect
+               else if t == "g" then some Topic.cfg else none)
+  if s == "*" then pure ⟨topic, .wild⟩ else
+    let n ← decS s
+    pure ⟨topic, .named n⟩
+
+def parseKind (k d : String) : Option Kind :=
+  if k == "t" then some .typical else if k == "n" then some .native
+  else if k == "p" then (decS d).map .proxy else none
+
+def doCommit (s : St) (idx : Nat) (w : Write) : St × String :=
+  let y := commit s.sys idx w
+  ({ sys := y, vers := (idx, y.cat) :: s.vers }, s!"ok q={y.queue.length} {dumpStr y.cat}")
+
+def stepLine (s : St) (toks : List String) : St × String :=
+  match toks with
+  | ["new", t] =>
+      (match decBool t with
+       | some b => ({ sys := Sys.init b, vers := [] }, "ok")
+       | none => (s, "bad-op"))
+  | ["client", id, t, sj, tok, rpc] =>
+      (match id.toNat?, parseKey t sj, decS tok, decBool rpc with
+       | some id, some k, some tok, some rpc => ({ s with sys := addClient s.sys id k tok rpc }, "ok")
+       | _, _, _, _ => (s, "bad-op"))
+  | ["reg", idx, node, addr, "-"] =>
+      (match idx.toNat?, decS node, addr.toNat? with
+       | some idx, some node, some addr => doCommit s idx (.reg node addr none)
+       | _, _, _ => (s, "bad-op"))
+  | ["reg", idx, node, addr, sid, name, port, kind, dest] =>
+      (match idx.toNat?, decS node, addr.toNat?, decS sid, decS name, port.toNat?, parseKind kind dest with
+       | some idx, some node, some addr, some sid, some name, some port, some kind =>
+           doCommit s idx (.reg node addr (some ⟨node, sid, name, port, kind⟩))
+       | _, _, _, _, _, _, _ => (s, "bad-op"))
+  | ["dereg", idx, node, sid] =>
+      (match idx.toNat?, decS node with
+       | some idx, some node =>
+           if sid == "-" then doCommit s idx (.dereg node none)
+           else (match decS sid with
+                 | some sid => doCommit s idx (.dereg node (some sid))
+                 | none => (s, "bad-op"))
+       | _, _ => (s, "bad-op"))
+  | ["cfg", idx, name, val] =>
+      (match idx.toNat?, decS name, val.toNat? with
+       | some idx, some name, some val => doCommit s idx (.cfgSet name val)
+       | _, _, _ => (s, "bad-op"))
+  | ["cfgdel", idx, name] =>
+      (match idx.toNat?, decS name with
+       | some idx, some name => doCommit s idx (.cfgDel name)
+       | _, _ => (s, "bad-op"))
+  | ["tok", idx, t] =>
+      (match idx.toNat?, decS t with
+       | some idx, some t => doCommit s idx (.tok t)
+       | _, _ => (s, "bad-op"))
+  | ["kv", idx] =>
+      (match idx.toNat? with
+       | some idx => doCommit s idx .kv
+       | none => (s, "bad-op"))
+  | ["pub"] =>
+      (match s.sys.queue with
+       | [] => (s, "idle")
+       | _ :: _ =>
+           let y := publishOne s.sys
+           ({ s with sys := y }, s!"pub q={y.queue.length}"))
+  | ["sub", id] =>
+      (match id.toNat? with
+       | some id =>
+           (match getClient s.sys id with
+            | none => (s, "noclient")
+            | some c => if attached c then (s, "busy") else ({ s with sys := subscribe s.sys id }, "ok"))
+       | none => (s, "bad-op"))
+  | ["next", id] =>
+      (match id.toNat? with
+       | some id =>
+           let (y, r) := next s.sys id
+           let out := match r with
+             | .nosub => "nosub"
+             | .block => "block"
+             | .err .acl => "err:acl"
+             | .err _ => "err:force"
+             | .ev st c =>
+                 let i := match st with
+                   | .nstf => 0
+                   | .eos i _ => i
+                   | .item it => it.idx
+                 let kind := match st with
+                   | .nstf => "nstf"
+                   | .eos _ _ => "eos"
+                   | .item _ => "ev"
+                 s!"{kind} i={i} vi={c.m.index} v={viewStr c.m.view}"
+           ({ s with sys := y }, out)
+       | none => (s, "bad-op"))
+  | ["unsub", id] =>
+      (match id.toNat? with
+       | some id =>
+           (match getClient s.sys id with
+            | none => (s, "noclient")
+            | some c => if attached c then ({ s with sys := unsub s.sys id }, "ok") else (s, "nosub"))
+       | none => (s, "bad-op"))
+  | ["expire"] => ({ s with sys := expire s.sys }, s!"ok n={s.sys.cache.length}")
+  | ["restore", v] =>
+      (match v.toNat? with
+       | some v =>
+           (match lookup? v s.vers with
+            | some c =>
+                let y := restore s.sys c
+                ({ s with sys := y }, s!"ok {dumpStr y.cat}")
+            | none => (s, "bad-op"))
+       | none => (s, "bad-op"))
+  | _ => (s, "bad-op")
+
+def engine : Engine := { State := St, init := ⟨Sys.init true, []⟩, step := stepLine }
+
 end CV.Engine.C11
